@@ -169,10 +169,20 @@ func (in *instrumenter) stmts(list []ast.Stmt) []ast.Stmt {
 		in.inner(s)
 		switch st := s.(type) {
 		case *ast.DeferStmt:
-			// wrap a deferred visible call so that the point is passed when it actually runs
-			if in.visibleCall(st.Call) && simpleArgs(st.Call) {
-				st.Call = &ast.CallExpr{Fun: &ast.FuncLit{Type: &ast.FuncType{Params: &ast.FieldList{}},
-					Body: &ast.BlockStmt{List: []ast.Stmt{in.point(st.Defer), &ast.ExprStmt{X: st.Call}}}}}
+			// wrap a deferred visible call so that the point is passed when it actually runs; the function
+			// value (with its receiver) and the argument of close are still evaluated at defer time
+			if in.visibleCall(st.Call) {
+				in.n++
+				tmp := ast.NewIdent(fmt.Sprintf("verifDeferred%d", in.n))
+				if id, ok := st.Call.Fun.(*ast.Ident); ok && id.Name == "close" && len(st.Call.Args) == 1 {
+					out = append(out, &ast.AssignStmt{Lhs: []ast.Expr{tmp}, Tok: token.DEFINE, Rhs: []ast.Expr{st.Call.Args[0]}})
+					st.Call = &ast.CallExpr{Fun: &ast.FuncLit{Type: &ast.FuncType{Params: &ast.FieldList{}},
+						Body: &ast.BlockStmt{List: []ast.Stmt{in.point(st.Defer), &ast.ExprStmt{X: &ast.CallExpr{Fun: ast.NewIdent("close"), Args: []ast.Expr{tmp}}}}}}}
+				} else if len(st.Call.Args) == 0 {
+					out = append(out, &ast.AssignStmt{Lhs: []ast.Expr{tmp}, Tok: token.DEFINE, Rhs: []ast.Expr{st.Call.Fun}})
+					st.Call = &ast.CallExpr{Fun: &ast.FuncLit{Type: &ast.FuncType{Params: &ast.FieldList{}},
+						Body: &ast.BlockStmt{List: []ast.Stmt{in.point(st.Defer), &ast.ExprStmt{X: &ast.CallExpr{Fun: tmp}}}}}}
+				}
 			}
 			out = append(out, s)
 			continue
@@ -340,6 +350,16 @@ func instrumentRepo(l *Loaded, outDir string) (map[string]string, error) {
 				})
 			}
 		}
+		ast.Inspect(f, func(x ast.Node) bool {
+			if call, ok := x.(*ast.CallExpr); ok && len(call.Args) == 1 {
+				if sel, ok := call.Fun.(*ast.SelectorExpr); ok {
+					if fn, ok := pp.TypesInfo.Uses[sel.Sel].(*types.Func); ok && fn.FullName() == "sync.NewCond" {
+						call.Args[0] = &ast.CallExpr{Fun: ast.NewIdent("verifWrapLocker"), Args: []ast.Expr{call.Args[0]}}
+					}
+				}
+			}
+			return true
+		})
 		f.Comments = nil
 		var buf bytes.Buffer
 		cfg := printer.Config{Mode: printer.RawFormat}
